@@ -310,7 +310,9 @@ func (g *evGen) chance(pct int) bool { return g.c.R.Intn(100) < pct }
 func (g *evGen) faults(pct int) Faults {
 	f := Faults{Rows: 1}
 	if g.chance(pct) {
-		switch g.c.R.Intn(7) {
+		switch g.c.R.Intn(8) {
+		case 7:
+			f.CommitTop = true
 		case 0:
 			f.Begin = true
 		case 1:
@@ -337,7 +339,7 @@ func (g *evGen) writeOp(h int) evOp {
 func (g *evGen) template() {
 	r := g.c.R
 	last := func() int { return len(g.r.handles) - 1 }
-	switch r.Intn(13) {
+	switch r.Intn(14) {
 	case 0, 1, 2:
 		g.emit(evOp{Op: "swrite", Kind: gen.Pick(r, AllKinds), Dry: g.chance(20), OK: g.chance(75), W: g.wid(), F: g.faults(20)})
 	case 3, 4:
@@ -419,6 +421,32 @@ func (g *evGen) template() {
 			g.emit(g.writeOp(second))
 		}
 		g.emit(evOp{Op: gen.Pick(r, []string{"commit", "rollback"}), H: second, OK: g.chance(85)})
+	case 11:
+		// atomic bulk (on an initializing ledger: the first write runs handleState inside
+		// the bulk's transaction) × inner / outer commit failure × a later element failing
+		n := 1 + r.Intn(4)
+		els := make([]evEl, 0, n)
+		failAt := -1
+		if g.chance(45) {
+			failAt = r.Intn(n)
+		}
+		for i := 0; i < n; i++ {
+			els = append(els, evEl{Kind: gen.Pick(r, bulkKinds), OK: i != failAt, W: g.wid()})
+		}
+		f := Faults{Rows: 1}
+		switch r.Intn(6) {
+		case 0:
+			f.Commit = true
+		case 1, 2:
+			f.CommitTop = true
+		case 3:
+			f.Rows = 0
+		}
+		g.emit(evOp{Op: "bulk", Atomic: true, Cof: g.chance(30), Els: els, F: f})
+		if g.chance(50) {
+			// the root facade still believes the ledger is initializing
+			g.emit(evOp{Op: "swrite", Kind: gen.Pick(r, AllKinds), OK: true, W: g.wid(), F: Faults{Rows: r.Intn(2)}})
+		}
 	case 10:
 		// nested transactions (outside the calling discipline: correspondence only) and
 		// a lock outside any transaction
